@@ -300,6 +300,19 @@ def agree(fnode, src, **kw):
     package that the reference does not mention (an extracted private function, a nested def), so that a refactoring which
     only moves code into such a helper compares equal."""
     from .srcmodel import CURRENT_MODEL
+    from .normalize import normalize_tree
+    # positional parameters are compared by position, not by name (a renamed parameter of a private closure is the same function)
+    rnode = normalize_tree(ast.parse(src)).body[0]
+    if isinstance(rnode, ast.FunctionDef) and isinstance(fnode, ast.FunctionDef) and 'env' not in kw:
+        pa = [a.arg for a in fnode.args.posonlyargs + fnode.args.args]
+        pb = [a.arg for a in rnode.args.posonlyargs + rnode.args.args]
+        if len(pa) == len(pb) and pa != pb:
+            known = set(n.id for n in ast.walk(rnode) if isinstance(n, ast.Name))
+            fi = getattr(fnode, '_finfo', None)
+            inl = Inline(CURRENT_MODEL[0], fi, known) if (fi is not None and CURRENT_MODEL[0] is not None) else None
+            ea = dict((p_, ('name', '@p%d' % k)) for k, p_ in enumerate(pa))
+            eb = dict((p_, ('name', '@p%d' % k)) for k, p_ in enumerate(pb))
+            return summary(fnode, inline=inl, env=ea, **kw), summary(rnode, env=eb, **kw)
     want = summary_of_source(src, **kw)
     known = set(n.id for n in ast.walk(ast.parse(src)) if isinstance(n, ast.Name))
     fi = getattr(fnode, '_finfo', None)
